@@ -133,6 +133,8 @@ package ice
 //@   loop 1 invariant position-in-range: 0 <= i
 //@   loop 1 invariant no-stored-extension-is-named-raddr: forall j int :: 0 <= j && j < len(extensions) ==> extensions[j].Key != "raddr"
 //@   ensures no-accepted-extension-is-named-like-the-related-address-keyword: result2 == nil ==> forall j int :: 0 <= j && j < len(result0) ==> result0[j].Key != "raddr"
+//@   loop 1 invariant no-stored-extension-has-an-empty-name: forall j int :: 0 <= j && j < len(extensions) ==> extensions[j].Key != ""
+//@   ensures no-accepted-extension-has-an-empty-name-which-marshal-could-not-write-back: result2 == nil ==> forall j int :: 0 <= j && j < len(result0) ==> result0[j].Key != ""
 //@   loop 1 invariant every-pair-but-exactly-tcptype-becomes-an-extension: (k == "tcptype" && len(extensions) == n0 && rawTCPTypeRaw == v) || (k != "tcptype" && len(extensions) == n0 + 1 && rawTCPTypeRaw == r0 && (n0 >= 0 ==> extensions[n0].Key == k && extensions[n0].Value == v))
 
 // byte-string = 1*(%x01-09/%x0B-0C/%x0E-FF): the token reader works on BYTES (multi-byte UTF-8 is
